@@ -6,7 +6,7 @@ W=/tmp/wt/$ID
 [ -f $W/_seed/patch.diff ] || { echo "no patch"; exit 1; }
 cd $W
 /venv/bin/python _seed/demo.py >/tmp/wt/$ID.demo_with.txt 2>&1; RC1=$?
-git stash -q; /venv/bin/python _seed/demo.py >/tmp/wt/$ID.demo_without.txt 2>&1; RC0=$?; git stash pop -q
+git diff -- cdd > /tmp/wt/$ID.patch; git apply -R /tmp/wt/$ID.patch; /venv/bin/python _seed/demo.py >/tmp/wt/$ID.demo_without.txt 2>&1; RC0=$?; git apply /tmp/wt/$ID.patch
 echo "demo with=$RC1 without=$RC0; tests WITH change: $(/venv/bin/python -m pytest -q -p no:cacheprovider --timeout=900 2>&1 | tail -1)"
 mkdir -p /verif/seeded/$ID; git diff -- cdd > /verif/seeded/$ID/patch.diff; cp _seed/demo.py /verif/seeded/$ID/demo.py; cp _seed/notes.txt /verif/seeded/$ID/notes.txt 2>/dev/null
 cd /verif
